@@ -41,6 +41,8 @@ ENTRIES = [
 
 
 def run(ctx):
+    from ..rules import ownership as _OW5
+    _OW5.rule_shallow_copy_shares_lists(ctx)
     OW.rule_F1(ctx, ENTRIES, "read-only entry points of C20")
     # value semantics of the score / performance classes: operators, comparisons, string forms and property getters are views
     obs = [e for e in OW.observer_entries(ctx, ["partitura.score", "partitura.performance"]) if e[0] not in {q for q, _ in ENTRIES}]
